@@ -48,7 +48,7 @@ func propC01(h History) error {
 				return fmt.Errorf("op %d: a failed Push triggered %d callbacks", i, len(st.CBs))
 			}
 		case opPushRaw:
-			if st.Err != nil {
+			if st.Err != nil && rawPrefix(i) == "" {
 				return fmt.Errorf("op %d: Push rejected the well-formed raw data %q: %v (record lost)", i, rawFor(i, o.Seq), st.Err)
 			}
 		}
